@@ -1,5 +1,170 @@
-"""C14: capability corpus (compile-time rejection of aliasing programs, Send/Sync, threads)."""
+"""C14 (b): capability corpus.
+
+Client programs of the handle API are compiled (borrow-checked, `--emit=metadata`) against the
+`prefix_trie` rlib the harness build has just produced from /repo's working tree:
+
+  * every *ill-moded* program (two live mutable handles on overlapping entries, a read-only view
+    coexisting with a mutable one, use of a handle after it was consumed, a non-thread-safe value
+    crossing a thread boundary) must be REJECTED by rustc — an accepted one is a violation and the
+    program is the replay;
+  * every *well-moded* program must be ACCEPTED (so "reject everything" does not pass, and the
+    ill-moded programs fail for the intended reason only).
+
+The programs are generated from templates x handle kinds x value types; each ill-moded program
+differs from a well-moded sibling by exactly the offending use.
+"""
+import glob, os, subprocess, hashlib
+from concurrent.futures import ThreadPoolExecutor
+
+# borrow / move / trait-bound errors: the intended reasons for rejecting an ill-moded program
+ALLOWED_CODES = {"E0277", "E0382", "E0499", "E0500", "E0502", "E0503", "E0505", "E0506", "E0597", "E0599", "E0716", "E0521", "E0373", "E0596"}
+
+PRELUDE = """#![allow(unused, dead_code)]
+use prefix_trie::*;
+use prefix_trie::map::*;
+use std::cell::Cell;
+use std::rc::Rc;
+use std::sync::{Mutex, MutexGuard};
+type P = (u32, u8);
+fn assert_send<T: Send>() {}
+fn assert_sync<T: Sync>() {}
+fn use_it<T>(_t: T) {}
+"""
+
+# (name, body, must_compile)
+def programs():
+    ps = []
+
+    def add(name, body, ok):
+        ps.append((name, PRELUDE + "pub fn f(map: &mut PrefixMap<P, i32>, other: &mut PrefixMap<P, i32>) {\n" + body + "\n}\n", ok))
+
+    # --- one iterator / sequential handles: fine -------------------------------------------------
+    add("ok_iter_mut_seq", "for (_, v) in map.iter_mut() { *v += 1; } for (_, v) in map.iter_mut() { *v += 1; }", True)
+    add("ok_collect_iter_mut", "let xs: Vec<(&P, &mut i32)> = map.iter_mut().collect(); for (_, v) in xs { *v += 1; }", True)
+    add("ok_view_then_mutate", "{ let v = (&*map).view(); use_it(v.iter().count()); } map.insert((0, 0), 1);", True)
+    add("ok_split", "let v = map.view_mut(); let (l, r) = v.split(); if let (Some(mut l), Some(mut r)) = (l, r) { for (_, x) in l.iter_mut() { *x += 1; } for (_, x) in r.iter_mut() { *x += 1; } }", True)
+    add("ok_split_threads", "let v = map.view_mut(); let (l, r) = v.split(); std::thread::scope(|s| { if let Some(mut l) = l { s.spawn(move || for (_, x) in l.iter_mut() { *x += 1; }); } if let Some(mut r) = r { s.spawn(move || for (_, x) in r.iter_mut() { *x += 1; }); } });", True)
+    add("ok_left_err_back", "let v = map.view_mut(); match v.left() { Ok(mut l) => { l.iter_mut().count(); } Err(mut same) => { same.iter_mut().count(); } }", True)
+    add("ok_union_mut_two_maps", "let mut a = map.view_mut(); for (_, l, r) in a.union_mut(&mut *other) { if let Some(l) = l { *l += 1; } if let Some(r) = r { *r += 1; } }", True)
+    add("ok_union_mut_split", "let v = map.view_mut(); if let (Some(mut l), Some(r)) = v.split() { for (_, a, b) in l.union_mut(r) { use_it((a, b)); } }", True)
+    add("ok_difference_mut_ro_other", "let mut a = map.view_mut(); for it in a.difference_mut(&*other) { *it.value += 1; }", True)
+    add("ok_entry_then_get", "*map.entry((1, 8)).or_insert(1) += 1; use_it(map.get(&(1, 8)));", True)
+    add("ok_two_ro_views", "let a = (&*map).view(); let b = (&*map).view(); use_it(a.iter().count() + b.iter().count());", True)
+    add("ok_view_of_viewmut", "let vm = map.view_mut(); { let v = (&vm).view(); use_it(v.iter().count()); } let mut vm = vm; vm.iter_mut().count();", True)
+
+    # --- aliasing: must be rejected --------------------------------------------------------------
+    add("bad_two_iter_mut", "let a = map.iter_mut(); let b = map.iter_mut(); use_it(a); use_it(b);", False)
+    add("bad_iter_mut_and_iter", "let a = map.iter_mut(); let b = map.iter(); use_it(a); use_it(b);", False)
+    add("bad_get_mut_then_insert", "let r = map.get_mut(&(0, 0)).unwrap(); map.insert((1, 8), 1); *r += 1;", False)
+    add("bad_get_mut_twice", "let r1 = map.get_mut(&(0, 0)).unwrap(); let r2 = map.get_mut(&(0, 0)).unwrap(); *r1 += 1; *r2 += 1;", False)
+    add("bad_viewmut_and_view", "let vm = map.view_mut(); let v = (&*map).view(); use_it(v.iter().count()); use_it(vm);", False)
+    add("bad_two_viewmut", "let a = map.view_mut(); let b = map.view_mut(); use_it(a); use_it(b);", False)
+    add("bad_use_after_split", "let mut v = map.view_mut(); let (l, r) = v.split(); v.iter_mut().count(); use_it((l, r));", False)
+    add("bad_use_after_left", "let mut v = map.view_mut(); let l = v.left(); v.iter_mut().count(); use_it(l);", False)
+    add("bad_left_and_right_of_moved", "let v = map.view_mut(); let l = v.left(); let r = v.right(); use_it((l, r));", False)
+    add("bad_clone_viewmut", "let v = map.view_mut(); let w = v.clone(); use_it((v, w));", False)
+    add("bad_two_iter_mut_of_view", "let mut v = map.view_mut(); let a = v.iter_mut(); let b = v.iter_mut(); use_it(a); use_it(b);", False)
+    add("bad_view_of_viewmut_then_mut", "let mut vm = map.view_mut(); let v = (&vm).view(); vm.iter_mut().count(); use_it(v.iter().count());", False)
+    add("bad_union_mut_same_map", "let mut a = map.view_mut(); let it = a.union_mut(&mut *map); use_it(it);", False)
+    add("bad_union_mut_self", "let mut a = map.view_mut(); let b = map.view_mut(); let it = a.union_mut(b); use_it(it);", False)
+    add("bad_intersection_mut_same_view", "let mut a = map.view_mut(); let it = a.intersection_mut(&mut *map); use_it(it);", False)
+    add("bad_difference_mut_ro_same_map", "let mut a = map.view_mut(); let it = a.difference_mut(&*map); use_it(it);", False)
+    add("bad_entry_alive_get", "let e = map.entry((1, 8)); let g = map.get(&(1, 8)); use_it(e); use_it(g);", False)
+    add("bad_occupied_remove_then_get", "if let Entry::Occupied(o) = map.entry((1, 8)) { let v = o.remove(); use_it(v); use_it(o.get()); }", False)
+    add("bad_iter_mut_then_len", "let it = map.iter_mut(); let n = map.len(); use_it((it, n));", False)
+    add("bad_children_mut_twice", "let a = map.children_mut(&(0, 0)); let b = map.children_mut(&(0, 0)); use_it((a, b));", False)
+    add("bad_value_mut_twice", "let mut v = map.view_mut(); let a = v.value_mut(); let b = v.value_mut(); use_it((a, b));", False)
+    add("bad_into_iter_then_use", "let v = map.view_mut(); let it = v.into_iter(); let mut v2 = v; v2.iter_mut().count(); use_it(it);", False)
+    add("bad_split_threads_plus_main", "let v = map.view_mut(); let (l, r) = v.split(); std::thread::scope(|s| { if let Some(mut l) = l { s.spawn(move || l.iter_mut().count()); } map.insert((0, 0), 1); use_it(r); });", False)
+
+    # --- Send / Sync matrix ----------------------------------------------------------------------
+    def sendsync(name, ty, trait, ok):
+        ps.append((name, PRELUDE + "pub fn f() { assert_%s::<%s>(); }\n" % (trait, ty), ok))
+
+    handles = {
+        "map": "PrefixMap<P, %s>", "set": None, "view": "TrieView<'static, P, %s>", "viewmut": "TrieViewMut<'static, P, %s>",
+        "iter": "Iter<'static, P, %s>", "itermut": "IterMut<'static, P, %s>", "intoiter": "IntoIter<P, %s>",
+        "valuesmut": "ValuesMut<'static, P, %s>",
+    }
+    # value type -> (Send, Sync)
+    vals = {"i32": (True, True), "Cell<i32>": (True, False), "Rc<i32>": (False, False),
+            "MutexGuard<'static, i32>": (False, True)}
+    for hn, ht in handles.items():
+        if ht is None:
+            continue
+        for vn, (vsend, vsync) in vals.items():
+            ty = ht % vn
+            tag = hn + "_" + "".join(c for c in vn if c.isalnum())
+            shared = hn in ("view", "iter")       # hands out &T only
+            owning = hn in ("map", "intoiter")     # owns the values
+            if owning:
+                send_ok, sync_ok = vsend, vsync
+            elif shared:
+                # &T across threads needs T: Sync (for both Send and Sync of the handle); the crate
+                # additionally (conservatively) requires T: Send for Sync of the shared table
+                send_ok, sync_ok = vsync and vsend, vsync and vsend
+            else:
+                # hands out &mut T: sending the handle can move a T to another thread
+                send_ok, sync_ok = vsend and vsync, vsend and vsync
+            # only the *negative* obligations are safety-relevant; positive ones are checked where
+            # the crate promises them (plain thread-safe values)
+            if not send_ok:
+                sendsync("bad_send_" + tag, ty, "send", False)
+            if not sync_ok:
+                sendsync("bad_sync_" + tag, ty, "sync", False)
+            if vn == "i32":
+                sendsync("ok_send_" + tag, ty, "send", True)
+                sendsync("ok_sync_" + tag, ty, "sync", True)
+    ps.append(("bad_thread_rc_map", PRELUDE + "pub fn f(m: PrefixMap<P, Rc<i32>>) { std::thread::spawn(move || use_it(m)); }\n", False))
+    ps.append(("bad_thread_viewmut_guard", PRELUDE + "pub fn f(m: &'static mut PrefixMap<P, MutexGuard<'static, i32>>) { let v = m.view_mut(); std::thread::spawn(move || { let mut v = v; use_it(v.remove()); }); }\n", False))
+    ps.append(("ok_thread_map", PRELUDE + "pub fn f(m: PrefixMap<P, i32>) { std::thread::spawn(move || use_it(m)); }\n", True))
+    return ps
 
 
 def run(root, cargo_target, env, tier, seed):
-    return {"violations": [], "summary": {"note": "not yet implemented"}}
+    deps = os.path.join(cargo_target, "debug", "deps")
+    rlibs = sorted(glob.glob(os.path.join(deps, "libprefix_trie-*.rlib")), key=os.path.getmtime)
+    out_dir = os.path.join(root, ".build", "cap")
+    os.makedirs(out_dir, exist_ok=True)
+    summary = {"programs": 0, "must_reject": 0, "must_accept": 0, "rejected": 0, "accepted": 0, "samples": []}
+    violations = []
+    if not rlibs:
+        p = os.path.join(out_dir, "no-rlib.txt")
+        open(p, "w").write("capability corpus: no libprefix_trie rlib found under %s\n" % deps)
+        return {"violations": [p + " no-failing-input-found"], "summary": summary}
+    rlib = rlibs[-1]
+    progs = programs()
+
+    def compile_one(p):
+        name, src, ok = p
+        path = os.path.join(out_dir, name + ".rs")
+        open(path, "w").write(src)
+        r = subprocess.run(["rustc", "--edition", "2021", "--crate-type", "lib", "--emit=metadata",
+                            "-L", "dependency=" + deps, "--extern", "prefix_trie=" + rlib,
+                            "-o", os.path.join(out_dir, name + ".rmeta"), path],
+                           env=env, stdout=subprocess.PIPE, stderr=subprocess.STDOUT, text=True)
+        return name, ok, r.returncode == 0, r.stdout, path
+
+    with ThreadPoolExecutor(max_workers=16) as ex:
+        results = list(ex.map(compile_one, progs))
+    for name, ok, compiled, out, path in results:
+        summary["programs"] += 1
+        summary["must_accept" if ok else "must_reject"] += 1
+        summary["accepted" if compiled else "rejected"] += 1
+        if ok and not compiled:
+            rp = os.path.join(out_dir, name + ".violation.txt")
+            open(rp, "w").write("well-moded program rejected by rustc (the corpus or the API changed):\n%s\n\n%s\n" % (path, out[-3000:]))
+            violations.append(rp + " no-failing-input-found")
+        if (not ok) and not compiled:
+            import re
+            codes = set(re.findall(r"error\[(E\d+)\]", out))
+            if not codes or not codes <= ALLOWED_CODES:
+                rp = os.path.join(out_dir, name + ".violation.txt")
+                open(rp, "w").write("ill-moded program rejected for an unrelated reason %s (corpus out of date w.r.t. the API?):\n%s\n\n%s\n" % (sorted(codes), path, out[-3000:]))
+                violations.append(rp + " no-failing-input-found")
+        if (not ok) and compiled:
+            rp = os.path.join(out_dir, name + ".violation.txt")
+            open(rp, "w").write("ill-moded program ACCEPTED by rustc — aliasing / thread-safety hole:\n%s\n\n%s\n" % (path, open(path).read()))
+            violations.append(rp)
+    summary["samples"] = [r[0] for r in results[:6]]
+    return {"violations": violations, "summary": summary}
